@@ -448,3 +448,57 @@ Proof.
 Qed.
 
 End Decode.
+
+(* ------------------------------------------------------------------ from the declaration to the dispatched candidate *)
+
+(* InitThisGopPkgEx: the overload is the list of the objects found under the decoded names (a name that is not
+   found is silently dropped) *)
+Fixpoint found_cands {C} (lookup_fn : str -> option C) (es : list str) : list C :=
+  match es with
+  | [] => []
+  | n :: t => match lookup_fn n with Some c => c :: found_cands lookup_fn t | None => found_cands lookup_fn t end
+  end.
+
+Lemma found_cands_all d (lookup_fn : str -> option cand) : forall cs k es,
+  expected_entries d k cs = Ok es ->
+  (forall i c n, nth_error cs i = Some c -> expected_entry d (k + Z.of_nat i) c = Ok n -> lookup_fn n = Some c) ->
+  found_cands lookup_fn es = cs.
+Proof.
+  induction cs as [|c t IH]; intros k es H Hb.
+  - simpl in H. inversion H; subst. reflexivity.
+  - cbn [expected_entries] in H.
+    destruct (expected_entry d k c) as [n| |] eqn:En; cbn [bind] in H; try discriminate H.
+    destruct (expected_entries d (k + 1) t) as [r| |] eqn:Er; cbn [bind] in H; try discriminate H.
+    inversion H; subst. cbn [found_cands].
+    rewrite (Hb 0%nat c n eq_refl) by (replace (k + Z.of_nat 0) with k by lia; exact En).
+    f_equal. apply (IH (k + 1) r Er). intros i c' n' Hi He.
+    apply (Hb (S i) c' n' Hi). replace (k + Z.of_nat (S i)) with (k + 1 + Z.of_nat i) by lia. exact He.
+Qed.
+
+Section EndToEnd.
+Variable lookup : str -> sobj.
+Variable lookup_fn : str -> option cand.
+Variable A : Type.
+Variable accepts : cand -> A -> bool.
+
+(* the scope binds the k-th candidate's name (the declared name__k for a literal) to that candidate *)
+Definition scope_binds (d : odecl) : Prop :=
+  forall i c n, nth_error (ocands d) i = Some c -> expected_entry d (Z.of_nat i) c = Ok n -> lookup_fn n = Some c.
+
+Lemma dispatch_end_to_end d cn cv lits a c :
+  wf_odecl lookup d = true -> scope_binds d ->
+  preload_overload d = Ok (Some (mkpre (Some (cn, cv)) lits)) ->
+  pairwise_distinguishable accepts (ocands d) -> In c (ocands d) -> accepts c a = true ->
+  exists r nm es,
+    decode_gopo lookup cn cv = Ok (r, nm, es) /\
+    resolve accepts (found_cands lookup_fn es) a = Some c.
+Proof.
+  intros Hwf Hb Hp Hd Hin Hacc.
+  destruct (gopo_table_wellformed lookup d cn cv lits Hwf Hp) as (nm & es & _ & Hdec & Hes & _).
+  exists (orecv d), nm, es. split; [exact Hdec|].
+  rewrite (found_cands_all d lookup_fn (ocands d) 0 es Hes).
+  - apply resolve_complete; auto.
+  - intros i c' n Hi He. apply (Hb i c' n Hi). replace (Z.of_nat i) with (0 + Z.of_nat i) by lia. exact He.
+Qed.
+
+End EndToEnd.
